@@ -8,7 +8,14 @@ Scenario:
   "instances": [{"start_at": s, "use_ctx": bool,
                  "txns": [{"tasks": [[{"p": part, "sleep": s, "n": 1}, ...], ...],
                            "offsets": {"at": "before"|"after"|"concurrent", "items": [[part, off], ...]} | null,
-                           "await_sends": bool, "end": "commit"|"abort", "pause": s}]}],
+                           "await_sends": bool, "end": "commit"|"abort", "pause": s,
+                           "end_after": s | absent}]}],
+      tasks items may carry "size": bytes of padding in the record value (with a small max_batch_size a
+      batch then holds one or two records and further send() calls park in add_message/wait_drain);
+      "end_after": the application does NOT wait for its send() calls: it calls commit/abort that many
+      seconds after begin_transaction() while the send tasks are still running (parked or sleeping);
+      a send() that raises is recorded ("refused") and ends its task; the tasks are collected after the
+      commit/abort returned, before the next transaction begins
   "faults": {"<Api>:<n>": {"kind", "code", "delay"}},     n-th request of that API (1-based, whole run)
   "moves":  {"<Api>:<n>": {"txn": node} | {"group": node}},   coordinator moved just before that request
   "loading": {"<Api>:<n>": k}    transaction coordinator answers COORDINATOR_LOAD_IN_PROGRESS to the
@@ -358,7 +365,16 @@ def run_scenario(sc):
                         val = b"r%d|" % rid + b"x" * it.get("size", 0)
                         srec = {"rid": rid, "p": it["p"], "inst": inst.i, "k": rec["k"], "state": "call"}
                         inst.sends.append(srec)
-                        fut = await p.send("t", val, key=b"k%d" % rid, partition=it["p"])
+                        try:
+                            fut = await p.send("t", val, key=b"k%d" % rid, partition=it["p"])
+                        except asyncio.CancelledError:
+                            raise
+                        except BaseException as e:  # noqa: BLE001
+                            srec["state"] = "refused"
+                            srec["exc"] = type(e).__name__
+                            net.ev("app_send_refused", inst=inst.i, k=rec["k"], rid=rid, p=it["p"],
+                                   exc=type(e).__name__, txn_state=p._txn_manager.state.name)
+                            raise
                         srec["state"] = "accepted"
                         srec["fut"] = fut
                         rec["items"].append([rid, it["p"]])
@@ -371,7 +387,28 @@ def run_scenario(sc):
                 rec["offsets"] += [[q, o] for q, o in txn["offsets"]["items"]]
                 net.ev("app_offsets_ok", inst=inst.i, k=rec["k"], items=txn["offsets"]["items"])
 
+            bg = []
+
+            async def body_early(rec=rec, txn=txn, futs=futs, bg=bg):
+                # the application fires its sends and ends the transaction without waiting for them
+                off = txn.get("offsets")
+                if off and off["at"] == "before":
+                    await offsets_task()
+                for items in txn["tasks"]:
+                    bg.append(asyncio.ensure_future(sender_task(items)))
+                if off and off["at"] != "before":
+                    bg.append(asyncio.ensure_future(offsets_task()))
+                await asyncio.sleep(txn["end_after"])
+
+            async def collect(rec=rec, bg=bg):
+                if not bg:
+                    return
+                res = await asyncio.gather(*bg, return_exceptions=True)
+                rec["task_errors"] = [type(r).__name__ for r in res if isinstance(r, BaseException)]
+
             async def body(rec=rec, txn=txn, futs=futs):
+                if txn.get("end_after") is not None:
+                    return await body_early()
                 off = txn.get("offsets")
                 if off and off["at"] == "before":
                     await offsets_task()
@@ -427,6 +464,10 @@ def run_scenario(sc):
                 rec["outcome"] = "failed"
                 net.ev("app_failed", inst=inst.i, k=k, exc=type(e).__name__, msg=str(e)[:60])
                 fatal = True
+            try:
+                await collect()
+            except asyncio.CancelledError:
+                raise
             if fatal:
                 inst.status = "fatal"
                 break
